@@ -210,4 +210,269 @@ theorem answer_roles {a a1 a2 : Pc} {d ans0 ans : Desc} (ha : WF a) (hT : TExist
         · obtain ⟨m, hm', hA⟩ := hrel.mem_right sec hsec
           exact hon2 s1 hs1 ⟨m, hm', by rw [← hA.1]; exact hk⟩
 
+/-! ## the role invariant of a pair and its preservation -/
+
+def Opp (ro ra : Role) : Prop := (ro = .client ∧ ra = .server) ∨ (ro = .server ∧ ra = .client)
+
+theorem Opp.symm {x y : Role} (h : Opp x y) : Opp y x := by
+  rcases h with ⟨h1, h2⟩ | ⟨h1, h2⟩
+  · exact .inr ⟨h2, h1⟩
+  · exact .inl ⟨h2, h1⟩
+
+theorem opp_oppRole {s : Role} (h : s = .client ∨ s = .server) : Opp (oppRole s) s := by
+  rcases h with rfl | rfl
+  · exact .inr ⟨rfl, rfl⟩
+  · exact .inl ⟨rfl, rfl⟩
+
+theorem Opp.oppRole_eq {ro ra : Role} (h : Opp ro ra) : oppRole ra = ro := by
+  rcases h with ⟨rfl, rfl⟩ | ⟨rfl, rfl⟩ <;> rfl
+
+theorem Opp.answerRole_eq {ro ra : Role} (h : Opp ro ra) : answerRole ra = ra := by
+  rcases h with ⟨_, rfl⟩ | ⟨_, rfl⟩ <;> rfl
+
+/-- role well-formedness of one connection: every definite role is `r`; negotiated sections sit on transports of role `r` -/
+structure RWF (pc : Pc) (r : Role) : Prop where
+  texist : TExist pc
+  uniform : RolesU r pc.transports
+  owners : ∀ t ∈ pc.transceivers, t.mid ≠ none → pc.roleOf t.transport = r
+  sctpOwner : ∀ s, pc.sctp = some s → s.mid ≠ none → pc.roleOf s.transport = r
+  fresh : pc.keys = [] → ∀ x ∈ pc.transports, x.role = .auto
+
+/-- the two connections have opposite roles -/
+def RolePair (o a : Pc) : Prop := ∃ ro ra, Opp ro ra ∧ RWF o ro ∧ RWF a ra
+
+theorem RolePair.symm {o a : Pc} (h : RolePair o a) : RolePair a o := by
+  obtain ⟨ro, ra, h1, h2, h3⟩ := h
+  exact ⟨ra, ro, h1.symm, h3, h2⟩
+
+theorem lookup_all_auto {ts : List Transport} (h : ∀ x ∈ ts, x.role = .auto) (id : Nat) : lookupRole id ts = .auto := by
+  unfold lookupRole
+  cases hf : ts.find? (fun t => t.id == id) with
+  | none => rfl
+  | some x => exact h x (List.mem_of_find?_eq_some hf)
+
+theorem rolesU_of_auto {ts : List Transport} (h : ∀ x ∈ ts, x.role = .auto) (r : Role) : RolesU r ts := fun x hx => .inl (h x hx)
+
+theorem roleSame_all_auto {ts ts' : List Transport} (h : RoleSame ts ts') (ha : ∀ x ∈ ts, x.role = .auto) : ∀ x ∈ ts', x.role = .auto := by
+  obtain ⟨f, e, rfl, hf, he⟩ := h
+  intro x hx
+  rcases List.mem_append.mp hx with h1 | h1
+  · obtain ⟨x0, hx0, rfl⟩ := List.mem_map.mp h1
+    rw [(hf x0).2]; exact ha x0 hx0
+  · exact he x h1
+
+theorem RoleSame.rolesU {r : Role} {ts ts' : List Transport} (h : RoleSame ts ts') (hu : RolesU r ts) : RolesU r ts' :=
+  (h.toStep .auto).rolesU hu (.inl rfl)
+
+theorem setRemote_roleSame_of_nil {pc pc' : Pc} {d : Desc} (h : pc.setRemote d = .ok pc') (hm : d.media = []) :
+    RoleSame pc.transports pc'.transports := by
+  obtain ⟨_, pc1, pc2, h1, h2, hO, hA⟩ := setRemoteWith_spec h
+  rw [hm] at h1
+  simp [applyRemote] at h1; subst h1
+  have hb := applyBundle_roles h2
+  cases ht : d.type
+  · rw [hO ht]; exact hb
+  · rw [hA ht]; exact hb
+
+theorem setRemote_offer_roleSame {pc pc' : Pc} {d : Desc} (h : pc.setRemote d = .ok pc') (ht : d.type = .offer)
+    (hauto : ∀ m ∈ d.media, m.setup = .auto) : RoleSame pc.transports pc'.transports := by
+  obtain ⟨_, pc1, pc2, h1, h2, hO, _⟩ := setRemoteWith_spec h
+  rw [ht] at h1
+  have hb : RoleSame pc.transports pc2.transports := (applyRemote_roles_offer _ _ _ _ hauto h1).trans (applyBundle_roles h2)
+  rw [hO ht]
+  exact hb
+
+theorem setLocal_answer_roleSame_of_nil {pc pc' : Pc} {d : Desc} (ht : d.type = .answer) (h : pc.setLocal d = .ok pc') (hm : d.media = []) :
+    RoleSame pc.transports pc'.transports := by
+  obtain ⟨pc2, pc4, hasg, hlr, htr⟩ := setLocal_answer_roleparts ht h
+  rw [hm] at hasg hlr
+  simp [assignMids] at hasg
+  simp [localRoles] at hlr
+  rw [htr, ← hlr, ← hasg]
+  exact RoleSame.refl _
+
+/-- **Roles through an exchange**: the pair invariant is preserved, and a definite DTLS role never changes. -/
+theorem exchange_roles {o a : Pc} {ex : Exchange} (_ho : WF o) (ha : WF a) (hp : Paired o a) (hok : ExchangeOk o a ex) (hr : RolePair o a) :
+    RolePair ex.offerer ex.answerer ∧
+    (∀ id r, (r = .client ∨ r = .server) → o.roleOf id = r → ex.offerer.roleOf id = r) ∧
+    (∀ id r, (r = .client ∨ r = .server) → a.roleOf id = r → ex.answerer.roleOf id = r) := by
+  obtain ⟨ro, ra, hopp, Ro, Ra⟩ := hr
+  obtain ⟨o1, d0, ans0, c1, c2, c3, c4, c5, c6, c7, c8⟩ := hok.calls
+  have A := hok.offerA
+  have B := hok.answerA
+  have R := hok.remoteO
+  obtain ⟨rest, hrest⟩ := A.pref
+  -- the offerer up to the answer: nothing moves, no role changes
+  obtain ⟨st1, etr1⟩ := createOffer_stays c1
+  have st2 := setLocal_stays c2
+  have hT2 : TExist ex.offererMid := (st1.trans st2).texist Ro.texist
+  have hrs2 : RoleSame o.transports ex.offererMid.transports :=
+    (roleSame_of_eq etr1).trans (setLocal_offer_roleSame (by
+      obtain ⟨h1, _⟩ := createOffer_shape c1; exact h1) c2)
+  have hT3 : TExist ex.offerer := texist_setRemote hT2 c8
+  have hTa1 : TExist ex.answererMid := texist_setRemote Ra.texist c4
+  have hTa2 : TExist ex.answerer := (setLocal_stays c6).texist hTa1
+  have hlen : ex.answer.media.length = ex.offer.media.length := by
+    have := congrArg List.length B.akeys; simpa [keysOf] using this
+  have hOkeys : ex.offerer.keys = keysOf ex.offer := hok.offerKeys.symm
+  have hAkeys : ex.answerer.keys = keysOf ex.offer := B.keys
+  cases hmed : ex.offer.media with
+  | nil =>
+    -- an exchange of empty descriptions: nothing is written
+    have hamed : ex.answer.media = [] := by
+      rw [hmed] at hlen; exact List.length_eq_zero_iff.mp hlen
+    have hans0 : ans0.media = [] := by
+      obtain ⟨_, media, href, _, _, _, q4, q5⟩ := setLocal_answer_spec (by
+        obtain ⟨h1, _⟩ := createAnswer_spec c5; exact h1) c6
+      have : ex.answer = { ans0 with media } := by
+        simp [Pc.localDesc, q4, q5] at c7; exact c7.symm
+      rw [this] at hamed
+      have hl := href.length
+      simp only at hamed
+      rw [hamed] at hl
+      exact List.length_eq_zero_iff.mp (by simpa using hl)
+    have hra : RoleSame a.transports ex.answerer.transports :=
+      (setRemote_roleSame_of_nil c4 hmed).trans (setLocal_answer_roleSame_of_nil (by
+        obtain ⟨h1, _⟩ := createAnswer_spec c5; exact h1) c6 hans0)
+    have hro : RoleSame o.transports ex.offerer.transports := hrs2.trans (setRemote_roleSame_of_nil c8 hamed)
+    have hkO : ex.offerer.keys = [] := by rw [hOkeys]; simp [keysOf, hmed]
+    have hkA : ex.answerer.keys = [] := by rw [hAkeys]; simp [keysOf, hmed]
+    have hko : o.keys = [] := by
+      have : keysOf ex.offer = [] := by simp [keysOf, hmed]
+      rw [hrest] at this
+      exact (List.append_eq_nil_iff.mp this).1
+    have hka : a.keys = [] := by rw [← hp.keys]; exact hko
+    have nomid : ∀ {pc : Pc}, WF pc → pc.keys = [] → (∀ t ∈ pc.transceivers, t.mid = none) ∧ (∀ s, pc.sctp = some s → s.mid = none) := by
+      intro pc hw hk
+      refine ⟨?_, ?_⟩
+      · intro t ht
+        rcases hw.pre.lines t ht with ⟨h1, _⟩ | ⟨j, x, hj, _, _⟩
+        · exact h1
+        · rw [hk] at hj; simp at hj
+      · intro s hs
+        cases hm : s.mid with
+        | none => rfl
+        | some x =>
+          have := hw.sctpIn x (by simp [Pc.sctpMid, hs, hm])
+          rw [hk] at this; simp at this
+    refine ⟨⟨ro, ra, hopp, ?_, ?_⟩, ?_, ?_⟩
+    · obtain ⟨n1, n2⟩ := nomid hok.wfO hkO
+      exact ⟨hT3, hro.rolesU Ro.uniform, fun t ht hm => absurd (n1 t ht) hm, fun s hs hm => absurd (n2 s hs) hm,
+        fun _ => roleSame_all_auto hro (Ro.fresh hko)⟩
+    · obtain ⟨n1, n2⟩ := nomid hok.wfA hkA
+      exact ⟨hTa2, hra.rolesU Ra.uniform, fun t ht hm => absurd (n1 t ht) hm, fun s hs hm => absurd (n2 s hs) hm,
+        fun _ => roleSame_all_auto hra (Ra.fresh hka)⟩
+    · intro id r _ hid
+      rw [roleOf_eq] at hid ⊢
+      rw [hro.lookup]; exact hid
+    · intro id r _ hid
+      rw [roleOf_eq] at hid ⊢
+      rw [hra.lookup]; exact hid
+  | cons m0 mrest =>
+    have hne : ex.offer.media ≠ [] := by rw [hmed]; simp
+    obtain ⟨p, s, AR⟩ := answer_roles ha Ra.texist A.type A.bundle A.nodup ⟨rest, by rw [hrest, hp.keys]⟩ A.appSame hok.accepts
+      A.setup hne c4 c5 c6 c7
+    -- the first section was negotiated before iff the pair has sections; then `s` is the answerer's role
+    have hsEq : a.keys ≠ [] → s = ra := by
+      intro hk
+      have hk0 : a.keys[0]? = some (m0.kind, m0.mid) := by
+        have h1 : (keysOf ex.offer)[0]? = some (m0.kind, m0.mid) := by simp [keysOf, hmed]
+        rw [hrest, hp.keys] at h1
+        cases hka : a.keys with
+        | nil => exact absurd hka hk
+        | cons k0 ks => rw [hka] at h1; simpa using h1
+      have hrole : a.roleOf p = ra := by
+        obtain ⟨pm, pa⟩ := AR.prov m0 mrest hmed
+        cases hkm : m0.kind.isMedia
+        · have hsm := ha.sctpHas m0.mid (by
+            have := List.mem_of_getElem? hk0
+            rw [kind_not_media hkm] at this; exact this)
+          simp only [Pc.sctpMid] at hsm
+          cases hs0 : a.sctp with
+          | none => simp [hs0] at hsm
+          | some s0 =>
+            simp only [hs0, Option.bind_some] at hsm
+            rw [← pa hkm s0 hs0]
+            exact Ra.sctpOwner s0 hs0 (by rw [hsm]; simp)
+        · obtain ⟨t, ht, htm⟩ := ha.owned 0 m0.kind m0.mid hk0 hkm
+          rw [← pm hkm t ht htm]
+          exact Ra.owners t ht (by rw [htm]; simp)
+      rw [AR.val, hrole, hopp.answerRole_eq]
+    have hw : ∀ m ∈ ex.answer.media, oppRole m.setup = oppRole s := fun m hm => by rw [AR.setups m hm]
+    have hane : ex.answer.media ≠ [] := by
+      intro h0; rw [h0, hmed] at hlen; simp at hlen
+    obtain ⟨p3, on1, on2, _, on4⟩ := R.onPrimary
+    have hwr3 : ex.offerer.roleOf p3 = oppRole s := on4 (oppRole s) B.type hw hT2 hane
+    have hstepO : RoleStep (oppRole s) o.transports ex.offerer.transports :=
+      (hrs2.toStep _).trans (R.rolesAnswer (oppRole s) B.type hw)
+    have hkne : ∀ {pc : Pc}, pc.keys = keysOf ex.offer → pc.keys ≠ [] := by
+      intro pc h; rw [h]; simp [keysOf, hmed]
+    -- uniformity
+    have huA : RolesU s ex.answerer.transports := by
+      by_cases hk : a.keys = []
+      · exact AR.step.rolesU (rolesU_of_auto (Ra.fresh hk) s) (.inr rfl)
+      · rw [hsEq hk] at AR ⊢
+        exact AR.step.rolesU Ra.uniform (.inr rfl)
+    have huO : RolesU (oppRole s) ex.offerer.transports := by
+      by_cases hk : o.keys = []
+      · exact hstepO.rolesU (rolesU_of_auto (Ro.fresh hk) _) (.inr rfl)
+      · have hk' : a.keys ≠ [] := by rw [← hp.keys]; exact hk
+        have : oppRole s = ro := by rw [hsEq hk']; exact hopp.oppRole_eq
+        rw [this] at hstepO ⊢
+        exact hstepO.rolesU Ro.uniform (.inr rfl)
+    have hmediaO : AllMedia ex.offerer.transceivers := hok.wfO.media
+    refine ⟨⟨oppRole s, s, opp_oppRole AR.definite, ?_, ?_⟩, ?_, ?_⟩
+    · refine ⟨hT3, huO, ?_, ?_, fun h0 => absurd h0 (hkne hOkeys)⟩
+      · intro t ht hm
+        rcases R.pre.lines t ht with ⟨h0, _⟩ | ⟨j, x, hj, hx, _⟩
+        · exact absurd h0 hm
+        · obtain ⟨m, hmj, he⟩ := keys_getElem_inv hj
+          simp only [Prod.mk.injEq] at he
+          rw [on1 t ht ⟨m, List.mem_of_getElem? hmj, by rw [← he.1]; exact hmediaO t ht, by rw [hx, he.2]⟩]
+          exact hwr3
+      · intro s' hs' hm
+        cases hmid : s'.mid with
+        | none => exact absurd hmid hm
+        | some x =>
+          have hin := hok.wfO.sctpIn x (by simp [Pc.sctpMid, hs', hmid])
+          rw [← hok.answerKeys] at hin
+          obtain ⟨m, hm', he⟩ := List.mem_map.mp hin
+          simp only [Prod.mk.injEq] at he
+          rw [on2 s' hs' ⟨m, hm', by rw [he.1]; rfl⟩]
+          exact hwr3
+    · exact ⟨AR.texist, huA, fun t ht hm => by rw [AR.owners t ht hm]; exact AR.written,
+        fun s' hs' hm => by rw [AR.sctp s' hs' hm]; exact AR.written, fun h0 => absurd h0 (hkne hAkeys)⟩
+    · intro id r hr hid
+      have hk : o.keys ≠ [] := by
+        intro h0
+        have := lookup_all_auto (Ro.fresh h0) id
+        rw [roleOf_eq] at hid; rw [this] at hid
+        rcases hr with rfl | rfl <;> cases hid
+      have hk' : a.keys ≠ [] := by rw [← hp.keys]; exact hk
+      have hw' : oppRole s = ro := by rw [hsEq hk']; exact hopp.oppRole_eq
+      have hrr : r = ro := by
+        rw [roleOf_eq] at hid
+        rcases Ro.uniform.lookup id with h1 | h1
+        · rw [h1] at hid; rcases hr with rfl | rfl <;> cases hid
+        · rw [← hid, h1]
+      rw [roleOf_eq] at hid ⊢
+      rcases hstepO.lookup id with h1 | h1
+      · rw [h1]; exact hid
+      · rw [h1, hw', hrr]
+    · intro id r hr hid
+      have hk : a.keys ≠ [] := by
+        intro h0
+        have := lookup_all_auto (Ra.fresh h0) id
+        rw [roleOf_eq] at hid; rw [this] at hid
+        rcases hr with rfl | rfl <;> cases hid
+      have hrr : r = ra := by
+        rw [roleOf_eq] at hid
+        rcases Ra.uniform.lookup id with h1 | h1
+        · rw [h1] at hid; rcases hr with rfl | rfl <;> cases hid
+        · rw [← hid, h1]
+      rw [roleOf_eq] at hid ⊢
+      rcases AR.step.lookup id with h1 | h1
+      · rw [h1]; exact hid
+      · rw [h1, hsEq hk, hrr]
+
 end Aiortc.Model.Negotiate
